@@ -21,6 +21,19 @@ func (r *Runner) runHistory(it *spec.Item) {
 	interp := ri.New(g)
 	interp.MaxSteps = 5000000
 	menu := decodeSyms(it, it.Extra)
+	// the step alphabet: every menu input from the default entry (Parse() without argument), plus,
+	// for each rule named in Entries, one step that passes that rule explicitly
+	type step struct{ in, rule string }
+	var steps []step
+	for _, in := range menu {
+		steps = append(steps, step{in, ""})
+	}
+	for i, rn := range it.Entries {
+		if len(menu) > 1 {
+			steps = append(steps, step{menu[1+i%(len(menu)-1)], rn})
+		}
+	}
+	skey := func(st step) string { return st.rule + "\x00" + st.in }
 	us := it.Us
 	if len(us) == 0 {
 		us = []string{"uint32"}
@@ -88,21 +101,22 @@ func (r *Runner) runHistory(it *spec.Item) {
 					cfg := fmt.Sprintf("U=%s Size=%d nomemo=%v", u, size, memo == 1)
 					// fresh observations in this configuration must equal the reference configuration
 					fresh := map[string]string{}
-					for _, in := range menu {
-						key := fmt.Sprintf("%d|hist|%s|%s|%s", it.Idx, v.Name, cfg, show(in))
+					for _, st := range steps {
+						in := st.in
+						key := fmt.Sprintf("%d|hist|%s|%s|%s%s", it.Idx, v.Name, cfg, st.rule, show(in))
 						r.progress(key)
-						o := pkg.New(u, size, memo == 1).Step(obs.Req{Input: in, Want: want})
-						fresh[in] = ser(o)
+						o := pkg.New(u, size, memo == 1).Step(obs.Req{Input: in, Rule: st.rule, Want: want})
+						fresh[skey(st)] = ser(o)
 						r.eval("C12", u != "uint32" || size != -1, key, nil)
-						if fresh[in] != base[in] {
+						if st.rule == "" && fresh[skey(st)] != base[in] {
 							c := &caseCtx{it, gshow, v.Name, "", in, memo == 1, false}
-							r.mismatch(c, "C12", "configuration", "as with U=uint32, Size unset: "+base[in], cfg+": "+fresh[in], cfg)
+							r.mismatch(c, "C12", "configuration", "as with U=uint32, Size unset: "+base[in], cfg+": "+fresh[skey(st)], cfg)
 						}
 					}
 					// all histories of length 1..Depth
 					d := it.Depth
 					idx := make([]int, d)
-					var nodes, steps int64
+					var nodes, nsteps int64
 					var walk func(level int, inst obs.Inst, prefix []string)
 					// histories are enumerated as a tree; each leaf path is executed on its own instance
 					var leaves func(level int)
@@ -111,26 +125,31 @@ func (r *Runner) runHistory(it *spec.Item) {
 							inst := pkg.New(u, size, memo == 1)
 							hist := make([]string, 0, d)
 							for k := 0; k < d; k++ {
-								in := menu[idx[k]]
-								hist = append(hist, show(in))
-								o := inst.Step(obs.Req{Input: in, Want: want})
-								steps++
+								st := steps[idx[k]]
+								in := st.in
+								if st.rule != "" {
+									hist = append(hist, st.rule+":"+show(in))
+								} else {
+									hist = append(hist, show(in))
+								}
+								o := inst.Step(obs.Req{Input: in, Rule: st.rule, Want: want})
+								nsteps++
 								// C13 on a reused instance: whatever is reported indexes THIS input's rune sequence
 								if nr := len([]rune(in)); o.Panic != "" || o.ErrPanic != "" || o.ErrTok.E > nr || (len(o.Toks) > 0 && o.Toks[len(o.Toks)-1].E > nr) {
 									c := &caseCtx{it, gshow, v.Name, "", in, memo == 1, false}
 									r.eval("C13", true, fmt.Sprintf("%d|reuse|%s|%s", it.Idx, v.Name, show(in)), nil)
 									r.mismatch(c, "C13", "reused-instance-offsets", fmt.Sprintf("no panic, offsets within the %d runes of this input", nr), fmt.Sprintf("after history %s: panic=%q error-panic=%q error token %v", strings.Join(hist, " -> "), o.Panic, o.ErrPanic, o.ErrTok), cfg)
 								}
-								if got := ser(o); got != fresh[in] {
-									c := &caseCtx{it, gshow, v.Name, "", in, memo == 1, false}
+								if got := ser(o); got != fresh[skey(st)] {
+									c := &caseCtx{it, gshow, v.Name, st.rule, in, memo == 1, false}
 									hs := strings.Join(hist, " -> ")
-									r.mismatch(c, "C12", "history", "fresh parser on "+show(in)+": "+fresh[in], "after history "+hs+": "+got, cfg+"|"+hs)
+									r.mismatch(c, "C12", "history", "fresh parser on "+show(in)+": "+fresh[skey(st)], "after history "+hs+": "+got, cfg+"|"+hs)
 									return // later steps of this history run on a polluted instance
 								}
 							}
 							return
 						}
-						for i := range menu {
+						for i := range steps {
 							idx[level] = i
 							nodes++
 							leaves(level + 1)
@@ -143,9 +162,9 @@ func (r *Runner) runHistory(it *spec.Item) {
 					}
 					c := r.counter("C12")
 					c.States += nodes
-					c.Trans += steps
+					c.Trans += nsteps
 					if len(c.Samples) < 4 && d > 0 {
-						c.Samples = append(c.Samples, fmt.Sprintf("%s [%s] %s: all %d histories of length %d over menu %v (%d steps), each step equal to a fresh parser", gshow, spec.VariantName(v.Name), cfg, pow(len(menu), d), d, showAll(menu, show), steps))
+						c.Samples = append(c.Samples, fmt.Sprintf("%s [%s] %s: all %d histories of length %d over menu %v plus %d steps with an explicit entry rule %v (%d steps), each step equal to a fresh parser", gshow, spec.VariantName(v.Name), cfg, pow(len(steps), d), d, showAll(menu, show), len(steps)-len(menu), it.Entries, nsteps))
 					}
 				}
 			}
